@@ -8,6 +8,7 @@ import os
 
 ON = os.environ.get("PRIVATE_PGM_VERIF") == "1"
 sink = None
+detail = False    # tools set this to also receive high-volume inner-loop events
 
 
 def emit(kind, **fields):
